@@ -1,19 +1,19 @@
-"""Per-property configuration of the checks (engine, rules, trusted base)."""
+"""Loads the per-property specs from lib/specs/C??.py (one file per property so that
+they can be edited independently)."""
+import glob
+import importlib.util
+import os
 
-SPECS = {
-    "C10": dict(
-        engine="numeric",
-        level_rule=("cases: direct calls of Float64ToInt64/Int64ToFloat64, NewPrefixCodedInt64, PrefixCoded.Int64, "
-                    "ValidPrefixCodedTermBytes, splitInt64Range, termRange.Enumerate, incrementBytes, the numeric analyzer's "
-                    "tokens, Interleave/Deinterleave and end-to-end NumericRange queries, on boundary sets (sign change, +-0 "
-                    "neighbours, subnormals, powers of two +-1, 4-bit and 7-bit boundaries, int64 extremes, +-Inf ends) plus "
-                    "seeded random 64-bit values; a case is non-trivial when the call succeeds on a non-zero input / the "
-                    "interval is non-empty / the query matches some but not all documents; distinct = distinct Coq case terms. "
-                    "oracle evaluations: order embedding on all boundary pairs x 64 shifts, interval membership of probe values."),
-        trust=["numeric_range_exact is stated over index tokens and split ranges; the dictionary (vellum) lookup "
-               "`Contains` is a function parameter (dict) of the model"],
-        assumptions=["NaN bit patterns are outside the order theorem's reading as numbers (finite values per the property)",
-                     "the segment dictionary answers Contains(term) exactly for the indexed terms (checked end to end only)"],
-        search_seeds=2,
-    ),
-}
+SPECS, META, ENGINE_TEXT, NOT_APPLICABLE = {}, {}, {}, {}
+_d = os.path.join(os.path.dirname(os.path.abspath(__file__)), "specs")
+for _p in sorted(glob.glob(os.path.join(_d, "C*.py"))):
+    _pid = os.path.basename(_p)[:-3]
+    _s = importlib.util.spec_from_file_location("spec_" + _pid, _p)
+    _m = importlib.util.module_from_spec(_s)
+    _s.loader.exec_module(_m)
+    if getattr(_m, "NOT_APPLICABLE", None):
+        NOT_APPLICABLE[_pid] = _m.NOT_APPLICABLE
+        continue
+    SPECS[_pid] = _m.SPEC
+    META[_pid] = _m.META
+    ENGINE_TEXT.update(getattr(_m, "ENGINE_TEXT", {}))
